@@ -29,7 +29,7 @@ META = {
     "technique": "Lean 4 proof over regenerated constants/table + hand-written loops, differential correspondence through a chunking "
                  "io.Reader, oracle on the real code",
 }
-REQUIRED = ["stuffed_no_end", "encode_end_count", "stream_end_count", "encode_length_bounds", "read_encode", "stream_roundtrip", "stream_roundtrip_rest", "chunking_irrelevant", "stream_roundtrip_chunked",
+REQUIRED = ["readGo_no_end", "readPacket_truncated", "stream_truncation_safe", "stuffed_no_end", "encode_end_count", "stream_end_count", "encode_length_bounds", "read_encode", "stream_roundtrip", "stream_roundtrip_rest", "chunking_irrelevant", "stream_roundtrip_chunked",
             "fcs_good", "check_append", "fcstab_length", "fcstab_is_crc16", "invalid_frames_table", "ip_frames_table",
             "mux_roundtrip", "mux_stream_roundtrip", "mux_chunking_irrelevant", "mux_stream_roundtrip_chunked",
             "mux_invalid_frame_dropped", "mux_short_coap_dropped", "mux_ip_frame_not_prepended", "empty_payload_dropped"]
